@@ -45,14 +45,14 @@ class Module:
         self.rel = os.path.relpath(path, root)
         with open(path) as f:
             self.source = f.read()
-        self.tree = ast.parse(self.source, filename=path)
+        self.tree = normalise_tree(ast.parse(self.source, filename=path))
         self.derenamed = []
         if not os.environ.get("HV_NO_DERENAME"):
             from . import derename
             try:
                 derename.derename_tree(self.tree, self.rel, self.derenamed)
             except Exception as e:  # the pass is an optional normalisation: on any failure analyse the tree as written
-                self.tree = ast.parse(self.source, filename=path)
+                self.tree = normalise_tree(ast.parse(self.source, filename=path))
                 self.derenamed = [(self.rel, "*", "pass failed: %r" % e)]
         self.funcs = {}
         self.classes = {}
@@ -212,6 +212,56 @@ def const_str(node):
 import functools
 
 
+ALIASES = {"np": "numpy"}
+
+
+class _Normalise(ast.NodeTransformer):
+    """behaviour-preserving normalisation applied to every module before analysis:
+    `x: T = v` -> `x = v`; parameter / return annotations dropped; the conventional module
+    alias `np` spelled `numpy` (when the module imports numpy under that alias)"""
+
+    def __init__(self, aliases):
+        self.aliases = aliases
+
+    def visit_AnnAssign(self, node):
+        self.generic_visit(node)
+        if node.value is None:
+            return ast.copy_location(ast.Pass(), node)
+        return ast.copy_location(ast.Assign(targets=[node.target], value=node.value, type_comment=None), node)
+
+    def visit_FunctionDef(self, node):
+        self.generic_visit(node)
+        node.returns = None
+        for a in node.args.posonlyargs + node.args.args + node.args.kwonlyargs + [x for x in (node.args.vararg, node.args.kwarg) if x]:
+            a.annotation = None
+        return node
+
+    visit_AsyncFunctionDef = visit_FunctionDef
+
+    def visit_Name(self, node):
+        if node.id in self.aliases:
+            node.id = self.aliases[node.id]
+        return node
+
+    def visit_Import(self, node):
+        for a in node.names:
+            if a.asname in self.aliases and a.name == self.aliases[a.asname]:
+                a.asname = None
+        return node
+
+
+def normalise_tree(tree):
+    aliases = {}
+    for n in ast.walk(tree):
+        if isinstance(n, ast.Import):
+            for a in n.names:
+                if a.asname in ALIASES and a.name == ALIASES[a.asname]:
+                    aliases[a.asname] = a.name
+    # the alias is only rewritten when nothing else in the module is called by the full name's
+    # first component in a conflicting way (a plain `import numpy` next to it is fine)
+    return ast.fix_missing_locations(_Normalise(aliases).visit(tree))
+
+
 def unparse(node):
     """ast.unparse; a tuple is written without its outer parentheses (as in a subscript
     or a for-target), so that the text of a node does not depend on where it stands"""
@@ -227,6 +277,9 @@ def canon(src, squeeze=True):
     Module.code); fragments that do not parse on their own are only quote-normalised"""
     if not src.strip():
         return src
+    import re as _re
+    for _a, _full in ALIASES.items():
+        src = _re.sub(r"(?<![\w.])%s\." % _a, _full + ".", src)
     try:
         tree = ast.parse(src.strip())
         if len(tree.body) == 1 and isinstance(tree.body[0], ast.Expr):
